@@ -290,7 +290,7 @@ def iter_nodes(node: dict):
 def ed_json(ed) -> Optional[dict]:
     """ElementData returned by element_encode -> driver's rendering (None: raw content)"""
     tag, text, content, attributes, xmlns = ed
-    items = ser_items(content, lambda it: {'n': [it[0], L.canon(it[1])]})
+    items = ser_items(content, lambda it: {'n': [it[0] if isinstance(it[0], str) else repr(it[0]), L.canon(it[1])]})
     out = {'tag': tag, 'attrs': [[k, L.canon(v)] for k, v in (attributes or {}).items()],
            'xmlns': [list(p) for p in (xmlns or [])]}
     if text is not None:
@@ -853,7 +853,7 @@ def compare_model(ctx: Ctx, drv: Driver, u: Unit, cname: str, opts: dict, res: d
             continue
         for ent in enclog:
             if ent[0] in ('enc', 'encerr') and cname == 'jsonml' and isinstance(ent[1], MutableSequence) and any(
-                    isinstance(e, MutableSequence) and len(e) and isinstance(e[0], MutableSequence) for e in ent[1]):
+                    isinstance(e, MutableSequence) and len(e) and not isinstance(e[0], (str, MutableMapping)) for e in ent[1]):
                 ctx.count('model:skipped(non-string name)')
                 continue
             if ent[0] == 'enc':
